@@ -306,7 +306,16 @@ fn c09_pass(sink: &mut Sink, rng: &mut Rng, thorough: bool) {
     if !obs.is_empty() {
       let res = std::panic::catch_unwind(AssertUnwindSafe(|| TimeSpaceMoc::<u64, u64>::create_from_time_ranges_spatial_coverage(times.clone(), cov.clone(), DT_())));
       sink.count("path:ranges2d");
-      match res { Err(_) => sink.emit(&op, &panic_answer(), true), Ok(o) => { let out = from_flat(&o); sink.emit(&op, &bits_of(&out), nobs > 1); } }
+      match res {
+        Err(_) => sink.emit(&op, &panic_answer(), true),
+        Ok(o) => {
+          let out = from_flat(&o);
+          sink.emit(&op, &bits_of(&out), nobs > 1);
+          // the exact entries against the transliterated `make_consistent` (`Consistent2D.makeConsistent`)
+          let entries: Vec<Elem> = times.iter().zip(obs.iter()).map(|(t, (_, s))| (vec![t.clone()], vec![s * sunit()..(s + 1) * sunit()])).collect();
+          sink.emit(&format!("st_mkc {}", st_txt(&entries)), &st_txt(&out), nobs > 1);
+        }
+      }
       // (d) the same, converted to a RangeMOC2 by `time_space_iter` (what the store and the CLI do)
       let res = std::panic::catch_unwind(AssertUnwindSafe(|| {
         let o = TimeSpaceMoc::<u64, u64>::create_from_time_ranges_spatial_coverage(times.clone(), cov.clone(), DT_());
